@@ -8,6 +8,7 @@ import (
 	"net"
 	"runtime"
 	"sync"
+	"sync/atomic"
 	"testing"
 	"time"
 
@@ -431,7 +432,11 @@ var _ = io.EOF
 // together; measured on the multiplexer alone: ~4 losses per 20000 streams at GOMAXPROCS 2, none at 1 or 16): every byte must still arrive before the end-of-stream.
 func TestWriteThenCloseHammer(t *testing.T) {
 	n := vlib.Pick(40000, 400000)
-	for _, procs := range []int{2, 2} {
+	for round, procs := range []int{2, 2} {
+		if round == 1 {
+			hammerAppWritesAndCloses(t, n/2, runtime.NumCPU())
+			continue
+		}
 		old := runtime.GOMAXPROCS(procs)
 		func() {
 			defer runtime.GOMAXPROCS(old)
@@ -479,6 +484,99 @@ func TestWriteThenCloseHammer(t *testing.T) {
 			vlib.Rec.Extra(fmt.Sprintf("hammer_connections_gomaxprocs_%d", procs), n/2)
 		}()
 	}
+}
+
+// hammerAppWritesAndCloses is the other direction of the hammer: three applications at a time write 5-101 bytes
+// (starting with a connection number) and close at once; the target must have received exactly those bytes when it sees
+// end-of-stream.
+func hammerAppWritesAndCloses(t *testing.T, n, procs int) {
+	old := runtime.GOMAXPROCS(procs)
+	defer runtime.GOMAXPROCS(old)
+	type report struct {
+		data  []byte
+		ended bool
+	}
+	var pending sync.Map // connection number -> chan report
+	orphans := make(chan report, 64)
+	tgt := vlib.NewTarget("data", func(tc *vlib.TargetConn) {
+		data, ended, _ := readToEOF(tc.Conn, 20*time.Second)
+		tc.Conn.Close()
+		if len(data) >= 4 {
+			id := int(data[0])<<24 | int(data[1])<<16 | int(data[2])<<8 | int(data[3])
+			if ch, ok := pending.Load(id); ok {
+				ch.(chan report) <- report{data, ended}
+				return
+			}
+		}
+		select {
+		case orphans <- report{data, ended}:
+		default:
+		}
+	})
+	defer tgt.Close()
+	p, err := vlib.StartPair(vlib.PairConfig{Carrier: vlib.CarTCP,
+		Channels:  []vlib.ChannelSpec{{Name: "data", Target: tgt.URL()}},
+		Listeners: []vlib.ListenerSpec{{Channel: "data"}}})
+	if err != nil {
+		vlib.Rec.Inconclusive("bind")
+		return
+	}
+	defer p.Close()
+	var next int32
+	var failed atomic.Value
+	var wg sync.WaitGroup
+	for w := 0; w < 3; w++ {
+		wg.Add(1)
+		go func() {
+			defer wg.Done()
+			for failed.Load() == nil {
+				i := int(atomic.AddInt32(&next, 1))
+				if i > n {
+					return
+				}
+				k := (i*7)%97 + 5
+				want := vlib.PRF(uint64(k)+1000, 0, k)
+				want[0], want[1], want[2], want[3] = byte(i>>24), byte(i>>16), byte(i>>8), byte(i)
+				ch := make(chan report, 1)
+				pending.Store(i, ch)
+				c, err := p.Dial("data")
+				if err != nil {
+					failed.Store(fmt.Sprintf("dial: %v", err))
+					return
+				}
+				c.Write(want)
+				c.Close()
+				if i%500 == 0 {
+					vlib.Rec.Case(fmt.Sprintf("hammer-up|%d|%d", procs, i), true, []string{"write-then-close-hammer", "direction:application-to-target", fmt.Sprintf("gomaxprocs:%d", procs)}, func() interface{} {
+						return map[string]interface{}{"test": "write-then-close-hammer", "direction": "application-to-target", "gomaxprocs": procs, "connection": i, "bytes": k}
+					})
+				}
+				msg := ""
+				select {
+				case r := <-ch:
+					if vlib.FirstDiff(r.data, want) != -1 || !r.ended {
+						msg = fmt.Sprintf("connection %d (GOMAXPROCS %d, three applications at a time): application wrote %d bytes and closed at once; target received %d bytes, ended=%v", i, procs, k, len(r.data), r.ended)
+					}
+				case r := <-orphans:
+					msg = fmt.Sprintf("connection %d (GOMAXPROCS %d, three applications at a time): an application wrote its bytes and closed at once; a target connection ended after %d bytes without the connection number (ended=%v)", i, procs, len(r.data), r.ended)
+				case <-time.After(25 * time.Second):
+					msg = fmt.Sprintf("connection %d (GOMAXPROCS %d): application wrote %d bytes and closed at once; the target saw no end of its connection within 25s", i, procs, k)
+				}
+				pending.Delete(i)
+				if msg != "" {
+					failed.Store(msg)
+					return
+				}
+			}
+		}()
+	}
+	wg.Wait()
+	if m := failed.Load(); m != nil {
+		msg := m.(string)
+		vlib.Rec.Violation(map[string]interface{}{"property": "C17", "test": "write-then-close-hammer", "direction": "application-to-target", "gomaxprocs": procs, "problem": msg})
+		t.Fatalf("C17 %s", msg)
+	}
+	vlib.Rec.Extra(fmt.Sprintf("hammer_connections_application_to_target_gomaxprocs_%d", procs), n)
 }
 
 // TestLongLivedConnection: the property holds for connections of any age, in particular for one that outlives the
